@@ -1,6 +1,7 @@
 package stx
 
 import (
+	"regexp"
 	"bytes"
 	"context"
 	"fmt"
@@ -385,6 +386,7 @@ func (r *Runner) finishPut(op *pendingOp, reply string) {
 				r.acVersions[op.obj] = map[string]bool{}
 			}
 			r.acVersions[op.obj][string(r.ACValue(op.obj, op.ver))] = true
+			delete(r.hidden, op.obj) // a fresh upload is a new, legitimate location for the key
 		} else {
 			id := r.contentID(op.obj)
 			if r.uploads[id] == nil {
@@ -841,6 +843,7 @@ func (r *Runner) startComp(id, parent, child int) {
 	}
 	childObj := po.Children[child]
 	childDigest := CASDigest(po.Instance, r.Content(childObj))
+	op.newsAtStart, op.discardsAtStart = r.st.Alloc.News.Load(), r.discards.total()
 	r.pending[id] = op
 	go func() {
 		kind, data := consume(r.st.BA.GetFromComposite(context.Background(), r.Digest(parent), childDigest, &gatedSlicer{r: r, op: op}))
@@ -857,7 +860,7 @@ func (r *Runner) startComp(id, parent, child int) {
 			impl = "data " + bytesLine(e.data)
 		}
 		r.m(line, impl)
-		r.checkComp(parent, child, e)
+		r.checkComp(op, e)
 		r.state()
 		return
 	}
@@ -869,9 +872,19 @@ func (r *Runner) startComp(id, parent, child int) {
 	r.state()
 }
 
-func (r *Runner) checkComp(parent, child int, e event) {
+func (r *Runner) checkComp(op *pendingOp, e event) {
+	parent, child := op.obj, op.child
 	switch e.reply {
 	case "data":
+		// a composite read that completes is a successful read through the parent (C05): either the parent needed no
+		// refresh or it was refreshed by this call, so the parent stays readable for the guaranteed window. (Nothing is
+		// claimed for the child read on its own: a child uploaded separately before a still fresh parent is served from
+		// wherever it is.)
+		for o := range r.objs {
+			if r.Digest(o) == r.Digest(parent) {
+				r.noteTouch(o, op.newsAtStart, op.discardsAtStart)
+			}
+		}
 		// slicing makes the children addressable on their own, under the parent's instance name
 		if r.visibleAllowed(parent) {
 			for _, c := range r.objs[parent].Children {
@@ -895,6 +908,12 @@ func (r *Runner) checkComp(parent, child int, e event) {
 		if !r.visibleAllowed(parent) {
 			r.oracle("C01", "an object is visible although no successful upload under an admissible instance name exists", fmt.Sprintf("composite read of parent %d", parent))
 		}
+	case "not-found":
+		if r.mustSurvive(parent) {
+			r.oracle("C05", "an object that was just read or reported present was lost before old_blocks+1 further blocks were allocated",
+				fmt.Sprintf("GetFromComposite of parent %d: NOT_FOUND, touched at %d blocks, now %d", parent, r.touched[parent], r.st.Alloc.News.Load()))
+		}
+		delete(r.touched, parent)
 	case "err integrity":
 		if !r.corrupted {
 			r.oracle("C01", "a read reported a data integrity error on a medium that was not corrupted", fmt.Sprintf("GetFromComposite parent %d child %d", parent, child))
@@ -916,7 +935,7 @@ func (r *Runner) stepComp(op *pendingOp) {
 		impl = "ok"
 	}
 	r.m(strings.TrimSpace(fmt.Sprintf("fcomp.end %d %d %s", op.id, pk, strings.Join(parts, " "))), impl)
-	r.checkComp(op.obj, op.child, e)
+	r.checkComp(op, e)
 	r.state()
 }
 
@@ -945,6 +964,20 @@ func (r *Runner) drainComposites() {
 	for _, id := range ids {
 		r.stepOp(id)
 	}
+}
+
+var longComponent = regexp.MustCompile(`Z([0-9]+)`)
+
+// ExpandInstance expands the script notation for long instance names: "Z<n>" stands for n letters z (names that differ
+// only far beyond the first few hundred bytes of the key string must still be different names).
+func ExpandInstance(s string) string {
+	return longComponent.ReplaceAllStringFunc(s, func(m string) string {
+		n, _ := strconv.Atoi(m[1:])
+		if n > 2000 {
+			n = 2000
+		}
+		return strings.Repeat("z", n)
+	})
 }
 
 // RunCase runs a script: "#cfg ..." line, "obj <size> <instance> [alias <j>|parent <c1,c2,..>]" declarations, then operations.
@@ -997,7 +1030,7 @@ func RunCase(model *hx.Model, dr *discardReader, name string, script []string) (
 		case "obj": // obj <size> <instance|-> [parent a,b,c]
 			o := Object{Size: n(1), Alias: -1}
 			if len(w) > 2 && w[2] != "-" {
-				o.Instance = w[2]
+				o.Instance = ExpandInstance(w[2])
 			}
 			if len(w) > 4 && w[3] == "alias" && okObj(n(4)) {
 				o.Alias = n(4)
@@ -1119,6 +1152,10 @@ func RunCase(model *hx.Model, dr *discardReader, name string, script []string) (
 			if last == "err unavailable" {
 				r.oracle("C04", "capacity is permanently lost: with nothing in flight and a spare block configured an upload fails with UNAVAILABLE",
 					fmt.Sprintf("probe upload %d of %d bytes", i, size))
+				if r.corrupted {
+					r.oracle("C08", "the store stopped accepting uploads after a corruption was detected",
+						fmt.Sprintf("with nothing in flight and a spare block configured, probe upload %d of %d bytes fails with UNAVAILABLE", i, size))
+				}
 				break
 			}
 		}
@@ -1197,8 +1234,14 @@ func (r *Runner) corruptingRead(obj int) string {
 	return kind
 }
 
+// validationCached: with a validation cache, an object that was validated before is served without being checked
+// again; a corrupting read of it detects nothing (that is what the cache trades), so the corrupt operation skips it.
+func (r *Runner) validationCached(obj int) bool {
+	return r.st.VC != nil && r.st.VC.RemoveExisting(r.Digest(obj).ToSingletonSet()).Empty()
+}
+
 func (r *Runner) corruptHier(obj int) {
-	if !r.storedUnderPrefix(obj) {
+	if !r.storedUnderPrefix(obj) || r.validationCached(obj) {
 		return
 	}
 	before := map[int]int64{}
@@ -1253,11 +1296,14 @@ func (r *Runner) corrupt(obj int) {
 		r.corruptHier(obj)
 		return
 	}
-	if r.st.Dev == nil || r.hier() || r.st.Cfg.Kind == "ac" || r.objs[obj].Size == 0 {
+	if r.st.Dev == nil || r.hier() || r.objs[obj].Size == 0 {
 		return
 	}
+	// an AC entry carries no checksum: what is detected is that it no longer parses, so the corrupting read returns
+	// 0xff bytes throughout (a flipped byte may still parse)
+	r.st.Dev.CorruptFill = r.st.Cfg.Kind == "ac"
 	abs, ok := r.location(obj)
-	if !ok {
+	if !ok || r.validationCached(obj) {
 		return
 	}
 	before := map[int]int64{}
@@ -1268,10 +1314,41 @@ func (r *Runner) corrupt(obj int) {
 	}
 	id := r.nextOp
 	r.nextOp++
+	storedSize := int64(0)
+	if l, err := r.st.KLM.Get(local.NewKeyFromString(r.Digest(obj).GetKey(r.keyFormat()))); err == nil {
+		storedSize = l.SizeBytes
+	}
 	r.st.Dev.CorruptReads = 1
 	kind := r.corruptingRead(obj)
+	consumed := r.st.Dev.CorruptReads == 0
 	r.st.Dev.CorruptReads = 0
 	k := r.flatKey(obj)
+	if r.st.Cfg.Kind == "ac" && consumed {
+		// an AC entry is read and parsed when the buffer is created, i.e. the detection comes first and a refresh
+		// then only allocates (releasing the quarantined blocks) and fails: corrupt, allocate, give up
+		if cls := r.m(fmt.Sprintf("fscan %d", k), "-"); cls == "old" {
+			r.m(fmt.Sprintf("corrupt %d", k), "ok")
+			if reply := r.m(fmt.Sprintf("fput.begin %d %d", id, storedSize), "-"); reply == "ok" {
+				r.m(fmt.Sprintf("fput.end %d %d 0", id, k), "-")
+			} else {
+				r.cmp(reply, kind, "fget")
+			}
+		} else {
+			r.m(fmt.Sprintf("corrupt %d", k), "ok")
+		}
+		if kind != "err integrity" && kind != "err unavailable" {
+			r.oracle("C08", "a read of corrupted data did not fail with INTERNAL", fmt.Sprintf("Get of object %d -> %s", obj, kind))
+		}
+		r.corrupted = true
+		r.corruptions++
+		for o, a := range before {
+			if a <= abs {
+				r.hidden[o] = true
+			}
+		}
+		r.state()
+		return
+	}
 	if kind == "not-found" || kind == "err unavailable" {
 		// the read never touched the medium (object gone, or the refresh reservation failed): an ordinary Get
 		reply := r.m(fmt.Sprintf("fget.begin %d %d", id, k), "-")
